@@ -16,15 +16,14 @@ theorem Q_le_of_not_lt (a b : Q) (h : Q.lt a b = false) : Q.le b a = true := by
 
 /-- the effective bounds of a non-integer numeric declaration hold for a conforming value outside
     the sign gap -/
-theorem effBounds_real (o : NumOpts) (q : Q) (hok : numOk o q = true) (hopts : numOptsOk o = true)
+theorem effBounds_real (o : NumOpts) (q : Q) (hok : numOk o q = true)
     (hgap1 : (o.min.isNone && o.sign == .pos && Q.lt q tiny) = false)
     (hgap2 : (o.max.isNone && o.sign == .neg && Q.lt negTiny q) = false) :
     geMin (effMin false o) q = true ∧
     (match effMax false o with
      | none => true
-     | some hi => if o.exclMax then Q.lt q hi else Q.le q hi) = true := by
+     | some hi => if exclEff o then Q.lt q hi else Q.le q hi) = true := by
   simp only [numOk, and_true_iff'] at hok
-  simp only [numOptsOk, and_true_iff'] at hopts
   obtain ⟨⟨⟨_, hmin⟩, hmax⟩, hsign⟩ := hok
   constructor
   · unfold effMin
@@ -36,24 +35,18 @@ theorem effBounds_real (o : NumOpts) (q : Q) (hok : numOk o q = true) (hopts : n
       · simpa [hs, signOk] using hsign
   · unfold effMax
     cases hm : o.max with
-    | some m => simpa [hm, leMax] using hmax
+    | some m => simpa [hm, leMax, exclEff] using hmax
     | none =>
-      have hex : o.exclMax = false := by
-        cases he : o.exclMax with
-        | false => rfl
-        | true => simp [he, hm] at hopts
-      cases hs : o.sign <;> simp [hex]
+      cases hs : o.sign <;> simp [exclEff, hm]
       · simp [hm, hs] at hgap2; exact Q_le_of_not_lt _ _ hgap2
       · simpa [hs, signOk] using hsign
 
-theorem effBounds_int (o : NumOpts) (i : Int) (hok : numOk o (Q.ofInt i) = true)
-    (hopts : numOptsOk o = true) :
+theorem effBounds_int (o : NumOpts) (i : Int) (hok : numOk o (Q.ofInt i) = true) :
     geMin (effMin true o) (Q.ofInt i) = true ∧
     (match effMax true o with
      | none => true
-     | some hi => if o.exclMax then Q.lt (Q.ofInt i) hi else Q.le (Q.ofInt i) hi) = true := by
+     | some hi => if exclEff o then Q.lt (Q.ofInt i) hi else Q.le (Q.ofInt i) hi) = true := by
   simp only [numOk, and_true_iff'] at hok
-  simp only [numOptsOk, and_true_iff'] at hopts
   obtain ⟨⟨⟨_, hmin⟩, hmax⟩, hsign⟩ := hok
   constructor
   · unfold effMin
@@ -65,13 +58,9 @@ theorem effBounds_int (o : NumOpts) (i : Int) (hok : numOk o (Q.ofInt i) = true)
       · simpa [hs, signOk] using hsign
   · unfold effMax
     cases hm : o.max with
-    | some m => simpa [hm, leMax] using hmax
+    | some m => simpa [hm, leMax, exclEff] using hmax
     | none =>
-      have hex : o.exclMax = false := by
-        cases he : o.exclMax with
-        | false => rfl
-        | true => simp [he, hm] at hopts
-      cases hs : o.sign <;> simp [hex]
+      cases hs : o.sign <;> simp [exclEff, hm]
       · simp [hs, signOk, Q.lt, Q.ofInt] at hsign; simp [Q.le, Q.ofInt]; omega
       · simpa [hs, signOk] using hsign
 
@@ -430,7 +419,7 @@ theorem signGap_split (o : NumOpts) (v : PyVal) (q : Q) (hq : v.asNum = some q)
   simp only [signGap, hq, Bool.or_eq_false_iff] at h
   exact h
 
-theorem adm_number (O R S) (o : NumOpts) (v : PyVal) (hf : numOptsOk o = true)
+theorem adm_number (O R S) (o : NumOpts) (v : PyVal)
     (hc : aNumber o v = true) (hnb : jsNumVal v = true) (hg : signGap o v = false) :
     Adm O R S (.number o) v := by
   intro j hj
@@ -440,19 +429,19 @@ theorem adm_number (O R S) (o : NumOpts) (v : PyVal) (hf : numOptsOk o = true)
     simp only [aNumber, PyVal.asNum] at hc
     simp only [ser, sScalar] at hj
     cases hj
-    have hb := effBounds_real o (Q.ofInt i) hc hf (signGap_split o _ _ rfl hg).1 (signGap_split o _ _ rfl hg).2
+    have hb := effBounds_real o (Q.ofInt i) hc (signGap_split o _ _ rfl hg).1 (signGap_split o _ _ rfl hg).2
     exact jsV_numKws R S "number" false o (.int i) (Q.ofInt i) (by simp [typeIs]) rfl
       (multOk_of_numOk o _ hc) hb.1 hb.2
   | float q =>
     simp only [aNumber, PyVal.asNum] at hc
     simp only [ser, sScalar] at hj
     cases hj
-    have hb := effBounds_real o q hc hf (signGap_split o _ _ rfl hg).1 (signGap_split o _ _ rfl hg).2
+    have hb := effBounds_real o q hc (signGap_split o _ _ rfl hg).1 (signGap_split o _ _ rfl hg).2
     exact jsV_numKws R S "number" false o (.float q) q (by simp [typeIs]) rfl
       (multOk_of_numOk o _ hc) hb.1 hb.2
   | _ => simp [jsNumVal] at hnb
 
-theorem adm_integer (O R S) (o : NumOpts) (v : PyVal) (hf : numOptsOk o = true)
+theorem adm_integer (O R S) (o : NumOpts) (v : PyVal)
     (hc : aInteger o v = true) (hnb : notBool v = true) : Adm O R S (.integer o) v := by
   intro j hj
   simp only [emit]
@@ -461,13 +450,13 @@ theorem adm_integer (O R S) (o : NumOpts) (v : PyVal) (hf : numOptsOk o = true)
     simp only [aInteger] at hc
     simp only [ser, sScalar] at hj
     cases hj
-    have hb := effBounds_int o i hc hf
+    have hb := effBounds_int o i hc
     exact jsV_numKws R S "integer" true o (.int i) (Q.ofInt i) (by simp [typeIs]) rfl
       (multOk_of_numOk o _ hc) hb.1 hb.2
   | bool b => simp [notBool] at hnb
   | _ => simp [aInteger] at hc
 
-theorem adm_float (O R S) (o : NumOpts) (v : PyVal) (hf : numOptsOk o = true)
+theorem adm_float (O R S) (o : NumOpts) (v : PyVal)
     (hc : cFloat o v = true) (hg : signGap o v = false) : Adm O R S (.float o) v := by
   intro j hj
   simp only [emit]
@@ -476,7 +465,7 @@ theorem adm_float (O R S) (o : NumOpts) (v : PyVal) (hf : numOptsOk o = true)
     simp only [cFloat] at hc
     simp only [ser, sScalar] at hj
     cases hj
-    have hb := effBounds_real o q hc hf (signGap_split o _ _ rfl hg).1 (signGap_split o _ _ rfl hg).2
+    have hb := effBounds_real o q hc (signGap_split o _ _ rfl hg).1 (signGap_split o _ _ rfl hg).2
     exact jsV_numKws R S "number" false o (.float q) q (by simp [typeIs]) rfl
       (multOk_of_numOk o _ hc) hb.1 hb.2
   | _ => simp [cFloat] at hc
@@ -732,21 +721,18 @@ theorem admits_field (O : Oracles) (S : String → String → Bool)
     (hS : ∀ p s, O.reMatch p s = true → S p s = true) (D : Defs) :
     ∀ (f : FieldDecl) (n : Nat) (v : PyVal), fragF f = true → RefsFaithful D f → refDepth f ≤ n →
       conforms O f v = true → regF O f v = true → Adm O (resolver D S n) S f v
-  | .number o, n, v, hf, _, _, hc, hr => by
-    simp only [fragF] at hf
+  | .number o, n, v, _, _, _, hc, hr => by
     simp only [conforms] at hc
     simp only [regF, and_true_iff'] at hr
-    exact adm_number O _ S o v hf hc hr.1 (by simpa using hr.2)
-  | .integer o, n, v, hf, _, _, hc, hr => by
-    simp only [fragF] at hf
+    exact adm_number O _ S o v hc hr.1 (by simpa using hr.2)
+  | .integer o, n, v, _, _, _, hc, hr => by
     simp only [conforms] at hc
     simp only [regF] at hr
-    exact adm_integer O _ S o v hf hc hr
-  | .float o, n, v, hf, _, _, hc, hr => by
-    simp only [fragF] at hf
+    exact adm_integer O _ S o v hc hr
+  | .float o, n, v, _, _, _, hc, hr => by
     simp only [conforms] at hc
     simp only [regF] at hr
-    exact adm_float O _ S o v hf hc (by simpa using hr)
+    exact adm_float O _ S o v hc (by simpa using hr)
   | .string lo hi pat, n, v, _, _, _, hc, _ => by
     simp only [conforms] at hc
     exact adm_string O _ S hS lo hi pat v hc
@@ -822,30 +808,23 @@ theorem admits_field (O : Oracles) (S : String → String → Bool)
     | _ => simp [seqElems] at hc
   | .tupleOf f u, n, v, hf, hrf, hd, hc, hr => by
     intro j hj
-    simp only [fragF] at hf
+    simp only [fragF, and_true_iff'] at hf
     simp only [conforms, cTuple] at hc
     cases v with
     | tuple xs =>
       simp only [and_true_iff'] at hc
-      simp only [regF, and_true_iff'] at hr
+      simp only [regF] at hr
       simp only [RefsFaithful] at hrf
       simp only [refDepth] at hd
       simp only [ser] at hj
       obtain ⟨ys, hys, rfl⟩ := sSeq_tuple _ xs j hj
-      have hlen : ys.length = xs.length := mapE_length _ xs ys hys
-      have hle : ys.length ≤ 1 := by rw [hlen]; simpa using hr.1
-      have hall : ys.all (jsV (resolver D S n) S (emit true f)) = true := by
-        refine mapE_all (ser O f) _ xs ys ?_ hys
-        intro x hx y hy
-        exact admits_field O S hS D f n x hf hrf hd (List.all_eq_true.mp hc.2 x hx)
-          (List.all_eq_true.mp hr.2 x hx) y hy
       simp only [emit]
-      refine jsV_tupKws _ S u [emit true f] ys (fun _ => jsonNodup_short ys hle) ?_ (by simpa using hle)
-      match ys, hall with
-      | [], _ => simp [jsZip]
-      | y :: rest, hall =>
-        simp only [List.all_cons, and_true_iff'] at hall
-        simp [jsZip, hall.1]
+      refine jsV_arrOf _ S { uniq := u } (emit true f) ys (emit_shape true f)
+        (fun h => by simp at h; simp [h] at hf) (by simp [sizeOk, geLen, leLen]) ?_
+      refine mapE_all (ser O f) _ xs ys ?_ hys
+      intro x hx y hy
+      exact admits_field O S hS D f n x hf.1 hrf hd (List.all_eq_true.mp hc.2 x hx)
+        (List.all_eq_true.mp hr x hx) y hy
     | _ => simp at hc
   | .tuplePos fs u, n, v, hf, hrf, hd, hc, hr => by
     intro j hj
@@ -878,7 +857,7 @@ theorem admits_field (O : Oracles) (S : String → String → Bool)
     | _ => simp at hc
   | .mapOf k vf sz, n, v, hf, hrf, hd, hc, hr => by
     intro j hj
-    simp only [fragF, plainKey, and_true_iff'] at hf
+    simp only [fragF, and_true_iff'] at hf
     simp only [conforms, cMap] at hc
     cases v with
     | dict kvs =>
@@ -889,17 +868,21 @@ theorem admits_field (O : Oracles) (S : String → String → Bool)
       simp only [ser] at hj
       obtain ⟨r, hr', rfl⟩ := sMap_dict _ kvs j hj
       simp only [emit]
-      refine jsV_mapOf _ S k (emit true vf) sz _ (by simpa using hf.1.2) (emit_shape true vf) ?_
-      refine dictOfPairs_all (fun kv => jsV (resolver D S n) S (emit true vf) kv.2) (fun _ => true)
-        (jsV (resolver D S n) S (emit true vf)) (fun kv => by simp) r ?_
-      refine mapE_all _ _ kvs r ?_ hr'
-      intro kv hkv y hy
-      rcases bindE_eq_ok hy with ⟨k', _, h2⟩
-      rcases bindE_eq_ok h2 with ⟨v', hv', h3⟩
-      cases h3
-      have hckv := List.all_eq_true.mp hc.2 kv hkv
-      simp only [and_true_iff'] at hckv
-      exact admits_field O S hS D vf n kv.2 hf.2 hrf hd hckv.2 (List.all_eq_true.mp hr kv hkv) v' hv'
+      have hvals : (dictOfPairs r).all (fun kv => jsV (resolver D S n) S (emit true vf) kv.2) = true := by
+        refine dictOfPairs_all (fun kv => jsV (resolver D S n) S (emit true vf) kv.2) (fun _ => true)
+          (jsV (resolver D S n) S (emit true vf)) (fun kv => by simp) r ?_
+        refine mapE_all _ _ kvs r ?_ hr'
+        intro kv hkv y hy
+        rcases bindE_eq_ok hy with ⟨k', _, h2⟩
+        rcases bindE_eq_ok h2 with ⟨v', hv', h3⟩
+        cases h3
+        have hckv := List.all_eq_true.mp hc.2 kv hkv
+        simp only [and_true_iff'] at hckv
+        exact admits_field O S hS D vf n kv.2 hf.2 hrf hd hckv.2 (List.all_eq_true.mp hr kv hkv) v' hv'
+      cases hkp : (mapKeyPattern k != "") with
+      | true => exact jsV_mapPat _ S k (emit true vf) sz _ hkp hvals
+      | false =>
+        exact jsV_mapOf _ S k (emit true vf) sz _ (by simpa using hkp) (emit_shape true vf) hvals
     | _ => simp at hc
   | .struct c fields defaults, n, v, hf, hrf, hd, _, hr => by
     intro j hj
